@@ -65,15 +65,15 @@ func (f *Frame) callCommon(in ssa.Instruction, c *ssa.CallCommon, guard string, 
 
 func (f *Frame) havocAll(st *State) {
 	e := f.e
+	na := e.fresh("alloc_x", sInt)
+	e.assert(fmt.Sprintf("(and (>= %s %s) (< %s %s))", na, st.alloc, na, pow2(embBase-1)))
+	st.alloc = na
 	for _, h := range sortedKeys(e.heapSort) {
 		if strings.HasPrefix(h, "ghost_") {
 			continue
 		}
-		st.heaps[h] = e.fresh("hx_"+h, e.heapSort[h])
+		st.heaps[h] = e.freshHeap("hx_", h, e.heapSort[h], na)
 	}
-	na := e.fresh("alloc_x", sInt)
-	e.assert(fmt.Sprintf("(and (>= %s %s) (< %s %s))", na, st.alloc, na, pow2(embBase-1)))
-	st.alloc = na
 }
 
 func (f *Frame) freshResult(hint string, rt types.Type, st *State) Val {
@@ -120,7 +120,7 @@ func (f *Frame) callFunc(in ssa.Instruction, callee *ssa.Function, bindings []Va
 	if ct != nil && !ct.Inline {
 		return f.callContract(in, ct, callee, guard, st, args, rt, nil)
 	}
-	if callee.Blocks == nil {
+	if callee.Blocks == nil || (callee.Pkg != e.P.Pkg && !(callee.Parent() != nil && callee.Parent().Pkg == e.P.Pkg)) {
 		return f.externDefault(in, callee, guard, st, args, rt)
 	}
 	if f.depth >= maxInlineDepth || onStack(f, callee) {
@@ -165,14 +165,14 @@ func (f *Frame) havocWrites(callee *ssa.Function, st *State) {
 		f.havocAll(st)
 		return
 	}
-	for _, h := range sortedKeys(w) {
-		if sortS, ok := e.heapSort[h]; ok {
-			st.heaps[h] = e.fresh("hx_"+h, sortS)
-		}
-	}
 	na := e.fresh("alloc_x", sInt)
 	e.assert(fmt.Sprintf("(and (>= %s %s) (< %s %s))", na, st.alloc, na, pow2(embBase-1)))
 	st.alloc = na
+	for _, h := range sortedKeys(w) {
+		if sortS, ok := e.heapSort[h]; ok {
+			st.heaps[h] = e.freshHeap("hx_", h, sortS, na)
+		}
+	}
 }
 
 func (f *Frame) externDefault(in ssa.Instruction, callee *ssa.Function, guard string, st *State, args []Val, rt types.Type) Val {
@@ -343,13 +343,15 @@ func (f *Frame) applyModifies(ct *Contract, callee *ssa.Function, env *specEnv, 
 		f.havocAll(st)
 		return
 	}
+	na := e.fresh("alloc_c", sInt)
+	e.assert(fmt.Sprintf("(and (>= %s %s) (< %s %s))", na, st.alloc, na, pow2(embBase-1)))
 	for _, h := range sortedKeys(w) {
 		sortS, ok := e.heapSort[h]
 		if !ok {
 			continue
 		}
 		before := e.getHeap(st, h, sortS)
-		after := e.fresh("hc_"+h, sortS)
+		after := e.freshHeap("hc_", h, sortS, na)
 		st.heaps[h] = after
 		ts := targets[h]
 		if strings.HasPrefix(h, "ghost_") || strings.HasPrefix(h, "G_") {
@@ -381,8 +383,6 @@ func (f *Frame) applyModifies(ct *Contract, callee *ssa.Function, env *specEnv, 
 			}
 		}
 	}
-	na := e.fresh("alloc_c", sInt)
-	e.assert(fmt.Sprintf("(and (>= %s %s) (< %s %s))", na, st.alloc, na, pow2(embBase-1)))
 	st.alloc = na
 }
 
@@ -449,6 +449,8 @@ func (f *Frame) modTargets(x SExpr, env *specEnv) []modTarget {
 			lo: fmt.Sprintf("(+ (s-off %s) %s)", base.T, lo), hi: fmt.Sprintf("(+ (s-off %s) %s)", base.T, hi)}}
 	case SIndex:
 		return f.modTargets(SSlice{m.X, m.I, SBin{"+", m.I, SInt{"1"}}}, env)
+	case SCall:
+		return f.wholeObject(f.specTerm(m, env))
 	}
 	e.errorf("unsupported modifies expression %#v", x)
 	return nil
@@ -474,6 +476,17 @@ func (f *Frame) wholeObject(v Val) []modTarget {
 		hn, hs := e.elemHeap(t.Elem())
 		return []modTarget{{heap: hn, sort: hs, ref: fmt.Sprintf("(s-ref %s)", v.T),
 			lo: fmt.Sprintf("(s-off %s)", v.T), hi: fmt.Sprintf("(+ (s-off %s) (s-len %s))", v.T, v.T)}}
+	case *types.Interface:
+		// the object held by the interface: any implementing pointer type of the package (closed world)
+		var out []modTarget
+		for _, T := range e.P.implementingTypes(v.Typ) {
+			if pt, ok := T.Underlying().(*types.Pointer); ok {
+				if _, isS := isStruct(pt.Elem()); isS {
+					out = append(out, f.structTargets(fmt.Sprintf("(i-ref %s)", v.T), pt.Elem())...)
+				}
+			}
+		}
+		return out
 	}
 	return nil
 }
